@@ -1166,6 +1166,11 @@ func (c *Compiler) writeCopy(node *node, l, r string, depth int) error {
 					c.wl(nl, "=&", c.fmtT(ch), "{}")
 					c.wl("}")
 				}
+				if ch.ptr && ch.typ == typeSlice && ch.typn == "[]byte" {
+					c.wl("if ", nl, "==nil{")
+					c.wl(nl, "=new([]byte)")
+					c.wl("}")
+				}
 			}
 			_ = c.writeCopy(ch, nl, nr, depth+1)
 			if chPtr {
@@ -1184,6 +1189,11 @@ func (c *Compiler) writeCopy(node *node, l, r string, depth int) error {
 			c.wl("if ", l, "==nil{")
 			c.wl(lb1, ":=make(", c.fmtT(node), ",", ln, ")")
 			c.wl(l, "=", c.fmtP(node, lb1, depth))
+			if node.ptr {
+				// The destination pointer may lead to a nil map as well.
+				c.wl("}else if *", l, "==nil{")
+				c.wl("*", l, "=make(", c.fmtT(node), ",", ln, ")")
+			}
 		}
 		c.wl("}")
 		rk := "rk" + strconv.Itoa(depth)
@@ -1216,7 +1226,15 @@ func (c *Compiler) writeCopy(node *node, l, r string, depth int) error {
 		} else {
 			c.wl("if len(", c.fmtVnb(node, r, depth), ")>0{")
 			lb := "buf" + strconv.Itoa(depth)
-			c.wl(lb, ":=", c.fmtVd(node, l, depth))
+			if node.ptr && depth > 0 {
+				// The destination pointer may be nil.
+				c.wl("var ", lb, " ", c.fmtT(node))
+				c.wl("if ", l, "!=nil{")
+				c.wl(lb, "=*", l)
+				c.wl("}")
+			} else {
+				c.wl(lb, ":=", c.fmtVd(node, l, depth))
+			}
 			c.wl("if ", lb, "==nil {")
 			c.wl(lb, "=make(", c.fmtT(node), ",0,len(", c.fmtVnb(node, r, depth), "))")
 			c.wl("}")
@@ -1254,7 +1272,17 @@ func (c *Compiler) writeCopy(node *node, l, r string, depth int) error {
 			c.wl("}")
 		}
 	case typeBasic:
-		if node.typu == "string" {
+		if node.typu == "string" && node.ptr {
+			// Either pointer may be nil: a nil source yields a nil copy, a nil destination is allocated.
+			c.wl("if ", r, "==nil{")
+			c.wl(l, "=nil")
+			c.wl("}else{")
+			c.wl("if ", l, "==nil{")
+			c.wl(l, "=new(", node.typn, ")")
+			c.wl("}")
+			c.wl("buf,*", l, "=inspector.BufferizeString(buf,*", r, ")")
+			c.wl("}")
+		} else if node.typu == "string" {
 			c.wl("buf,", c.fmtVnb(node, l, depth), "=inspector.BufferizeString(buf,", c.fmtVnb(node, r, depth), ")")
 		} else if node.ptr {
 			// Copy the value the pointer leads to, not the pointer: source and copy must not share it.
